@@ -62,6 +62,16 @@ fn generated_replacements() -> Vec<String> {
             out.push(format!("{f}({a}, {a}, {a})"));
         }
     }
+    // arithmetic between atoms of every pair of kinds (the static kind of the result has to be the
+    // kind the runtime produces: an integer bound written `2 + 0.5` is not an integer)
+    for (i, a) in ATOMS.iter().enumerate() {
+        for op in ["+", "-", "*", "/"] {
+            let b = ATOMS[(i * 5 + 3) % ATOMS.len()];
+            out.push(format!("{a} {op} {b}"));
+            out.push(format!("{a} {op} 0.5"));
+            out.push(format!("2 {op} {a}"));
+        }
+    }
     for a in ATOMS {
         out.push(format!("-{a}"));
         out.push(format!("!{a}"));
@@ -227,6 +237,34 @@ fn missing_member_of_declared_family(e: &TransformError, src: &str) -> bool {
     })
 }
 
+/// A Number where an Integer is required is a failed cast on the value almost everywhere (range
+/// bounds and indexes are checked as "numeric" and `4 / 2` is fine at run time), but the bounds of
+/// `IntegerRange(..)` are checked strictly: there the checker promises an Integer.
+fn strict_integer_position(e: &TransformError, src: &str) -> Option<String> {
+    match e.base_error() {
+        TransformError::WrongArgument { got: PrimitiveKind::Number, expected: PrimitiveKind::Integer } => {
+            // the innermost span of the error is the declaration itself (an error in its iteration
+            // or in a nested call has a deeper span of its own)
+            let inside = e
+                .origin_span()
+                .and_then(|s| s.span_text(src).ok().map(|t| t.to_string()))
+                .map(|t| t.contains("IntegerRange(") && {
+                    // the fractional value must be written inside the parentheses, not in the `for`
+                    let args = t.split("IntegerRange(").nth(1).unwrap_or("");
+                    let args = args.split(')').next().unwrap_or("");
+                    args.contains('.') || args.contains('/')
+                })
+                .unwrap_or(false);
+            if inside {
+                Some("WrongArgument:got=Number:expected=Integer:in-IntegerRange-bound".into())
+            } else {
+                None
+            }
+        }
+        _ => None,
+    }
+}
+
 fn numeric(k: &PrimitiveKind) -> bool {
     matches!(k, PrimitiveKind::Number | PrimitiveKind::Integer | PrimitiveKind::PositiveInteger | PrimitiveKind::Boolean)
 }
@@ -282,6 +320,7 @@ pub fn literals() -> Vec<String> {
         "min sum(u in nodes(G)) { x_u }\ns.t.\n    x_v + sum((_, u) in neigh_edges(v)) { x_u } >= 1 for v in nodes(G)\n    sum((_, u, w) in neigh_edges_of(\"A\", G)) { w * x_u } <= len(edges(G))\nwhere\n    let G = Graph { A -> [B: 2, C], B -> [C], C }\ndefine\n    x_u as Boolean for u in nodes(G)".into(),
         "max sum((v, i) in enumerate(vals)) { v * x_i } - avg(row in M) { len(row) } * y\ns.t.\n    sum((w, i) in enum(ws)) { w * x_i } <= cap\n    x_{i + 1} <= x_i for i in 0..len(vals) - 1\n    sum((p, q) in zip(vals, ws)) { p * q * y } >= 0\n    sum(i in union(ws, vals)) { i } * y <= 100\nwhere\n    let vals = [3, 1, 2]\n    let ws = [2, 2, 3]\n    let cap = 4\n    let M = [[1, 2], [3, 4]]\ndefine\n    x_i as Boolean for i in 0..len(vals)\n    y as Real(0, 10)".into(),
         "min sum(i in 0..k) { x_i }\ns.t.\n    x_i >= f for i in 0..k\n    x_0 <= 1 + h\n    x_1 <= 1 + -t\nwhere\n    let vals = [3, 1, 2]\n    let t = true\n    let b = t and t\n    let c = !t\n    let d = t or c\n    let e = (t -> c) <-> b\n    let k = len(vals) - 1\n    let f = vals[0] * 2\n    let h = vals[k] / 2\ndefine\n    x_i as Real(0, 10) for i in 0..k".into(),
+        "min y\ns.t.\n    c_i: y <= len(vals) for i in vals\n    d_t: y >= 0 for t in vals\n    e_u: y + x_u >= 0 for u in nodes(G)\n    f_i_j: y <= 9 for i in vals, j in 0..2\nwhere\n    let vals = [3, 1, 2]\n    let G = Graph { A -> [B], B }\ndefine\n    y as Real(0, 10)\n    x_u as Boolean for u in nodes(G)".into(),
     ]
 }
 
@@ -298,7 +337,7 @@ impl Prop for C19 {
                 model.mark_all_used = false;
                 Base::Model(TextCase { model, style, consts: vec![] })
             }),
-            3 => (0usize..3).prop_map(|i| Base::Literal(literals()[i].clone())),
+            4 => (0usize..4).prop_map(|i| Base::Literal(literals()[i].clone())),
         ];
         let m = prop_oneof![
             8 => (any::<u16>(), any::<u16>()).prop_map(|(at, with)| Mutation::Replace { at, with }),
@@ -336,7 +375,7 @@ impl Prop for C19 {
         let interesting = src.contains('(') && (src.contains(" in ") || src.contains("len("));
         match pre.transform(vec![], &fns) {
             Ok(_) => Outcome::Pass { nontrivial: mutated && interesting, labels: vec!["accepted-and-transformed".into()] },
-            Err(e) => match type_class(&e).filter(|_| !missing_member_of_declared_family(&e, &src)) {
+            Err(e) => match type_class(&e).or_else(|| strict_integer_position(&e, &src)).filter(|_| !missing_member_of_declared_family(&e, &src)) {
                 None => Outcome::Pass { nontrivial: mutated && interesting, labels: vec!["accepted:data-dependent-failure".into()] },
                 Some(kind) => {
                     // the recorded limitation: values whose static kind is Any (elements of mixed or
